@@ -741,7 +741,9 @@ pub fn gen_plan(id: &str, rng: &mut Rng) -> Result<(gen::GenModule, Vec<Inj>, bo
                 let mut mode = *rng.pick(&[Mode::Before, Mode::After, Mode::Alt, Mode::EmptyAlt, Mode::Before, Mode::After]);
                 // replacing / removing a structural keyword yields a body no decoder accepts: only before/after there
                 let opname = raw_in.funcs[(func - nimp) as usize].ops[at].name.as_str();
-                if matches!(mode, Mode::Alt | Mode::EmptyAlt) && matches!(opname, "Block" | "Loop" | "If" | "Else" | "End" | "TryTable" | "Try") {
+                // (the function's final `end` is different: an alternate there is not applied and the end is kept)
+                let final_end = at + 1 == raw_in.funcs[(func - nimp) as usize].ops.len();
+                if matches!(mode, Mode::Alt | Mode::EmptyAlt) && matches!(opname, "Block" | "Loop" | "If" | "Else" | "End" | "TryTable" | "Try") && !final_end {
                     mode = Mode::Before;
                 }
                 let mut path = *rng.pick(&paths);
@@ -844,6 +846,9 @@ pub fn gen_plan(id: &str, rng: &mut Rng) -> Result<(gen::GenModule, Vec<Inj>, bo
                         }
                     }
                 };
+                // try_table opens a block too: a special mode issued on it is either rejected at the call or must be reflected
+                let try_tables: Vec<usize> = func.ops.iter().enumerate().filter(|(_, o)| o.name == "TryTable").map(|(i, _)| i).collect();
+                let at = if !try_tables.is_empty() && !matches!(mode, Mode::FuncEntry | Mode::FuncExit) && rng.chance(1, 3) { *rng.pick(&try_tables) } else { at };
                 let mut path = *rng.pick(&paths);
                 if matches!(mode, Mode::EmptyBlockAlt | Mode::FuncEntry | Mode::FuncExit) && matches!(path, Path::IterInjectAt | Path::ModifierInjectAt) {
                     path = if rng.bool() { Path::Iter } else { Path::Modifier };
